@@ -302,9 +302,9 @@ impl Parser {
         let nil_into_plain_place = value_ty.is_optional().0 && !expected_ty.is_optional().0;
 
         if nil_into_plain_place
-            || !value_ty.eq_complex(
-                expected_ty,
-                &TypecheckFlags::use_class(maybe_class.as_ref().map(Ref::clone)).lhs_unwrap(true),
+            || !expected_ty.eq_complex(
+                &value_ty,
+                &TypecheckFlags::use_class(maybe_class.as_ref().map(Ref::clone)),
             )
         {
             let hint = expected_ty
